@@ -23,7 +23,7 @@ RULE = ("for each case (generated multi-input dependency graphs with DataFrame a
 ASSUMPTIONS = ["fault points are the Python-visible DB calls (execute/sql/register/unregister/table); faults inside DuckDB "
                "between two such calls are represented by the natural faults only"]
 FLOORS = {"quick": (600, 40), "thorough": (15000, 80)}
-REQUIRED_COUNTERS = {"faults_fired": 500, "conn_probes": 500, "clean_followups": 100}
+REQUIRED_COUNTERS = {"faults_fired": 300, "conn_probes": 300, "clean_followups": 100}
 NSH = 16
 
 COMPS = [("Id_1", "Integer", "Identifier", False), ("Me_1", "Number", "Measure", True)]
@@ -259,12 +259,14 @@ def run_case(case, emit):
         nat.append(("output-folder-is-a-file", "out", None))
     for var, val in (("VTL_THREADS", "auto"), ("VTL_THREADS", "2.0"), ("VTL_DUCKDB_DECIMAL_WIDTH", "28.0"), ("OUTPUT_NUMBER_SIGNIFICANT_DIGITS", ""),
                      ("VTL_MEMORY_LIMIT", "lots"), ("VTL_THREADS", "0"), ("VTL_DUCKDB_DECIMAL_WIDTH", "99")):
-        nat.append((f"unusable-setting:{var}={val!r}", "env", (var, val)))
+        if rng.random() < 0.3:       # a sample per case: the injected fault points keep most of the budget
+            nat.append((f"unusable-setting:{var}={val!r}", "env", (var, val)))
     eval_script = ('DS_e <- eval(R1(IN_1) language "SQL" returns dataset {identifier<integer> Id_1, measure<number> Me_1});\n' + script)
     for rname, query in (("self-join", "SELECT a.Id_1, a.Me_1 FROM IN_1 a JOIN IN_1 b ON a.Id_1 = b.Id_1"), ("unknown-column", "SELECT Id_1, Me_9 AS Me_1 FROM IN_1"),
                          ("syntax-error", "SELEC Id_1 FROM IN_1"), ("subquery-same-table", "SELECT Id_1, Me_1 FROM IN_1 WHERE Id_1 IN (SELECT Id_1 FROM IN_1)"),
                          ("wrong-result-columns", "SELECT Id_1 FROM IN_1")):
-        nat.append((f"eval-routine:{rname}", "eval", query))
+        if rng.random() < 0.4:
+            nat.append((f"eval-routine:{rname}", "eval", query))
     for label, what, arg in nat:
         if only and only != label:
             continue
